@@ -237,6 +237,15 @@ func runC10(r *fw.Run) {
 				cs.Seg = []int{0, 2}[j]
 				cc.Conns = append(cc.Conns, cs)
 			}
+			// ... while other clients die in the middle of a frame that is already longer than any read buffer (seeded change
+			// C02-O: a pooled assembly buffer that keeps the dead connection's fragment)
+			for j := 0; j < 12; j++ {
+				half := &CallScript{ID: fmt.Sprintf("half%d.%d", k, j), Pad: json.RawMessage(jg.BigString(sz/2 + j*1000)), Steps: []Step{{Op: "reply", NoPar: true}}}
+				data, _, _ := streamOf([]GenCall{{Method: "org.example.script.Half", Script: half}}, 0)
+				cut := 4200 + rng.Intn(len(data)-4300)
+				cc.Conns = append(cc.Conns, &ConnScript{Stream: data, Cut: cut, Hard: j%2 == 0, Seg: []int{0, 2}[j%2], SegS: rng.Int63(), What: "abort-inside-a-large-frame"})
+			}
+			r.Count("aborts_inside_a_large_frame", 12)
 			r.Journal(0, map[string]interface{}{"what": "large well-formed calls", "size": sz})
 			c01Round(r, g, "C10", cc, true)
 			r.Done(0)
